@@ -44,6 +44,8 @@ def gen_lines(rng, cls="plain", max_measures=6):
         wav_ids = list(dict.fromkeys(w for w in wav_ids if w.upper() != lnobj.upper())) or ["01"]
     if not use_ln_cls(cls) and rng.random() < 0.6:
         wav_ids.append("ZZ")  # without #LNOBJ the last id is an ordinary keysound
+    if rng.random() < 0.15 and lnobj.upper() != "0K":
+        wav_ids = list(dict.fromkeys(wav_ids + ["0k", "0K"]))  # likewise for sample ids
     undefined_ids = [i for i in ("02", "XY", "7K") if i not in wav_ids and i != lnobj]
     use_ln = cls != "no_lnobj"
     header = [("PLAYER", "1"), ("GENRE", rng.choice(["Trance", "J-POP", "a b c"])),
@@ -59,6 +61,9 @@ def gen_lines(rng, cls="plain", max_measures=6):
         header.append((f"WAV{lnobj}", "release.wav"))  # the end marker may have a sample of its own; it still ends the long note
     exb_ids = [b36(rng.randint(1, 200)) for _ in range(rng.randint(0, 3))]
     exb_ids = list(dict.fromkeys(exb_ids))
+    if rng.random() < 0.2:
+        # two definitions whose ids differ only in letter case are two definitions (ids are matched as written)
+        exb_ids = list(dict.fromkeys(exb_ids + ["1a", "1A"]))
     for e in exb_ids:
         header.append((f"BPM{e}", rng.choice(["222.22", "90.5", "300", "173.333", "60"])))
     if rng.random() < 0.4:
